@@ -45,8 +45,8 @@ def ref_basis(name, x, m):
 # ------------------------------------------------------------------ bases
 @st.composite
 def basis_case(draw):
-    form = draw(st.sampled_from(['f8', 'f4', 'f8', 'pyfloat', 'npscalar', 'pyint']))
-    n = 1 if form in ('pyfloat', 'npscalar', 'pyint') else draw(st.integers(1, 60))
+    form = draw(st.sampled_from(['f8', 'f4', 'f8', 'pyfloat', 'npscalar', 'pyint', 'i8', 'npint']))
+    n = 1 if form in ('pyfloat', 'npscalar', 'pyint', 'npint') else draw(st.integers(1, 60))
     x = [draw(st.one_of(st.sampled_from([-1.0, 1.0, 0.0, 0.5, -0.5]), uf)) for _ in range(n)]
     return dict(form=form, x=x, m=draw(st.sampled_from([5, 8, 12, 3, 10, 2, 7, 4, 11, 6, 9, 1])), fn=draw(st.sampled_from(['legendre', 'chebyshev', 'poly', 'chebyshev_split'])))
 
@@ -61,6 +61,10 @@ def basis_body(case):
     form = case['form']
     if form == 'pyint':
         arg = int(round(case['x'][0]))          # the scalars 0, 1, -1 as plain Python ints
+    elif form == 'npint':
+        arg = np.int64(round(case['x'][0]))
+    elif form == 'i8':
+        arg = np.round(np.array(case['x'])).astype('i8')       # the abscissae -1, 0, 1 held in an integer array
     elif form == 'pyfloat':
         arg = float(case['x'][0])
     elif form == 'npscalar':
